@@ -39,10 +39,11 @@ SoftenedBelowMax(r) ==
      LET p == r.P[i][(q - 1) * 9 + c]  b == r.Pb[i][(q - 1) * 9 + c] IN
        Abs(p) <= Abs(b) + 4 /\ (Abs(b) > 64 => Sgn(p) = Sgn(b))
 \* reloading retraces unloading: two substeps at the same level, none of them raising the maximum
-\* level seen before, have the same state
+\* level seen before and with the same maximum level behind them, have the same state
 MaxLevelBefore(r, i) == FoldSet(LAMBDA n, acc : Max2(r.levels[n], acc), 0, 1..(i - 1))
 Retraces(r, i, k) == /\ i < k /\ r.levels[i] = r.levels[k]
                      /\ MaxLevelBefore(r, i) >= r.levels[i]
+                     /\ MaxLevelBefore(r, k) = MaxLevelBefore(r, i)          \* no new maximum between the two visits
 ReloadRetracesUnload(r) ==
   \A i, k \in 1..NSub(r) : Retraces(r, i, k) =>
      \A n \in 1..Len(r.u[i]) : Abs(r.u[i][n] - r.u[k][n]) <= r.utol
